@@ -398,6 +398,7 @@ def monitor(rp, script, out, tasks, crash, props):
     held, final, waiting = {}, {}, set()
     colo_hist = {}
     idle_pending = None
+    unfit_pending = None
     for k, o in enumerate(out):
         it = script['iters'][k]
         slots = dict((u, sl) for u, sl in o['slots'])
@@ -517,11 +518,21 @@ def monitor(rp, script, out, tasks, crash, props):
         if idle_pending is not None:
             if not started_now and not any(st == 'FAILED' for _, st in o['events']) and idle_pending:
                 viol.append(('C04', tag + 'idle-pilot-starts-nothing', 'iteration %d: waiting %s all fit the idle pilot' % (k, sorted(idle_pending))))
+        # ---- C04: ... and if none of them fits even the idle pilot, at least one is failed in the next iteration
+        if unfit_pending:
+            if not any(st == 'FAILED' and uid in unfit_pending for uid, st in o['events']) \
+               and not any(st == 'CANCELED' and uid in unfit_pending for uid, st in o['events']):
+                viol.append(('C04', tag + 'unfitting-tasks-keep-waiting-on-idle-pilot',
+                             'iteration %d: waiting %s, none fits the idle pilot, none was failed' % (k, sorted(unfit_pending))))
+        unfit_pending = None
         idle_pending = None
         if not held and wp and not has_app:
             envs_known = set(e for j in range(k + 1) for e in script['iters'][j]['envs'])
             cand = [u for u in wp if (reqs[u]['env'] is None or reqs[u]['env'] in envs_known) and reqs[u]['colo'] is None]
-            if cand and len(cand) == len(wp) and all(fits_idle(rp, script, reqs[u]) for u in cand) \
-               and it['unsched'] and queue_empty:
-                idle_pending = set(cand)
+            if cand and len(cand) == len(wp) and it['unsched'] and queue_empty:
+                fits = [fits_idle(rp, script, reqs[u]) for u in cand]
+                if all(fits):
+                    idle_pending = set(cand)
+                elif not any(fits) and k + 1 < len(out) and not script['iters'][k + 1]['incoming']:
+                    unfit_pending = set(cand)
     return [v for v in viol if v[0] in props]
